@@ -24,6 +24,8 @@ def install(I):
                  "setattr", "issubclass", "object"):
         t[name] = globals()["b_" + name]
     t["ord"] = b_ord
+    t["re.compile"] = b_re_compile
+    t["re.escape"] = b_re_escape
     t["unicodedata.normalize"] = b_unicode_normalize
     t["dict.fromkeys"] = b_dict_fromkeys
     t["str.maketrans"] = b_str_maketrans
@@ -434,6 +436,93 @@ def b_dict(I, fv, args, kwargs, node):
         if star.upper or star.keymap:
             d.keymap = "upper"
     return I.alloc(d)
+
+
+RE_FLAGS = {"re.IGNORECASE": 2, "re.I": 2, "re.MULTILINE": 8, "re.M": 8, "re.DOTALL": 16, "re.S": 16, "re.VERBOSE": 64, "re.X": 64,
+            "re.ASCII": 256, "re.A": 256, "re.UNICODE": 32, "re.U": 32}
+
+
+def b_re_escape(I, fv, args, kwargs, node):
+    s_ = I.strval(I.force(args[0])) if args else None
+    if s_ is None:
+        return I.ext_call(fv, list(args), dict(kwargs), node)
+    import re
+    return Const(re.escape(s_))
+
+
+def b_re_compile(I, fv, args, kwargs, node):
+    pat = I.strval(I.force(args[0])) if args else None
+    fl = kwargs.get("flags", args[1] if len(args) > 1 else Const(0))
+    fl = I.force(fl)
+    flags = fl.v if isinstance(fl, Const) and isinstance(fl.v, int) else (RE_FLAGS.get(fl.name) if isinstance(fl, ExtV) else None)
+    if pat is None or flags is None:
+        return I.ext_call(fv, list(args), dict(kwargs), node)            # not a constant pattern: an ordinary external object
+    import re
+    try:
+        re.compile(pat, flags)
+    except re.error:
+        I.raise_("error", node, note="invalid regular expression")
+    return PatV(pat, flags)
+
+
+def _context_free(pattern, flags):
+    """No anchors, look-arounds or back-references: whether a position starts a match does not depend on its surroundings."""
+    import re._parser as sre
+    bad = {"AT", "ASSERT", "ASSERT_NOT", "GROUPREF", "GROUPREF_EXISTS"}
+
+    def walk(t):
+        for op, av in t:
+            if str(op) in bad:
+                return False
+            if isinstance(av, (list, tuple)):
+                for x in av:
+                    if hasattr(x, "data") or (isinstance(x, list) and x and isinstance(x[0], tuple)):
+                        if not walk(x):
+                            return False
+                    elif isinstance(x, (list, tuple)):
+                        for y in x:
+                            if hasattr(y, "data") and not walk(y):
+                                return False
+        return True
+    try:
+        return walk(sre.parse(pattern, flags))
+    except Exception:
+        return False
+
+
+def pattern_method(I, pv: PatV, name, args, kwargs, node):
+    """Methods of a constant compiled pattern: constant folding on constant strings, a provenance model for sub()."""
+    import re
+    rx = re.compile(pv.pattern, pv.flags)
+    # rules that substitute their own answer for a pattern method keep working
+    if I.ext_result is not None:
+        callee = Unk(f"{pv!r}.{name}", "ext")
+        r = I.ext_result(I, callee, args, kwargs, node)
+        if r is not None:
+            ev = I.emit("EXT", node, callee=callee, args=tuple(args), kwargs=dict(kwargs))
+            ev.data["result"] = r
+            return r
+    if name in ("match", "search", "fullmatch") and args:
+        s_ = I.strval(I.force(args[0]))
+        if s_ is not None:
+            return TRUE if getattr(rx, name)(s_) else NONE       # a match object only serves as a truth value here
+        return TRUE if I.decide(f"re.{name}:{pv.pattern}:{I.tag(args[0])}", [True, False]) else NONE
+    if name == "sub" and len(args) >= 2:
+        repl = I.strval(I.force(args[0]))
+        s_ = I.strval(I.force(args[1]))
+        if repl is not None and s_ is not None:
+            return Const(rx.sub(repl, s_))
+        sv = I.as_str(args[1])
+        if repl is not None and sv is not None and "\\" not in repl:
+            candidates = set(LINE_BREAKS) | set(")]}>\"'*/")
+            gone = frozenset(c for c in candidates if _context_free(pv.pattern, pv.flags) and rx.fullmatch(c) and c not in repl)
+            back = frozenset(repl)
+            return I.mkstr(_map_text(I, sv, lambda t: Text(t.name, (t.removed - back) | gone, t.stripped), lambda text: rx.sub(repl, text)))
+    if name == "findall" and args:
+        s_ = I.strval(I.force(args[0]))
+        if s_ is not None:
+            return I.alloc(AList([Tup(tuple(Const(x) for x in m)) if isinstance(m, tuple) else Const(m) for m in rx.findall(s_)]))
+    return I.ext_call(Unk(f"{pv!r}.{name}", "ext"), list(args), dict(kwargs), node)
 
 
 def b_ord(I, fv, args, kwargs, node):
@@ -1153,6 +1242,8 @@ def c_paramsdict(I, fv, args, kwargs, node):
 def call_bound_builtin(I, bb: BoundBuiltin, args, kwargs, node):
     recv = I.force(bb.recv)
     name = bb.name
+    if isinstance(recv, PatV):
+        return pattern_method(I, recv, name, args, kwargs, node)
     if isinstance(recv, Ref):
         o = I.deref(recv)
         if isinstance(o, ADict):
